@@ -3,6 +3,7 @@ package main
 // Evaluation of specification expressions to SMT terms in a given (current, old) state pair.
 
 import (
+	"reflect"
 	"fmt"
 	"go/ast"
 	"go/constant"
@@ -745,6 +746,29 @@ func (env *Env) callExpr(e *SExpr) Val {
 					}
 				}
 				env.fail("len of %s", x.typ)
+			case "jsonkey":
+				// jsonkey(T.field): the key encoding/json reads the field from (struct tag, else the field name)
+				if len(e.Args) != 1 || e.Args[0].Kind != "sel" {
+					env.fail("jsonkey(Type.field)")
+				}
+				ty, ok := env.tryType(e.Args[0].X)
+				if !ok {
+					env.fail("jsonkey: %s is not a type", e.Args[0].X.Name)
+				}
+				stt, ok := ty.Underlying().(*types.Struct)
+				if !ok {
+					env.fail("jsonkey: not a struct type")
+				}
+				for i := 0; i < stt.NumFields(); i++ {
+					if stt.Field(i).Name() == e.Args[0].Name {
+						key := strings.Split(reflect.StructTag(stt.Tag(i)).Get("json"), ",")[0]
+						if key == "" {
+							key = stt.Field(i).Name()
+						}
+						return Val{t: ex.strLit(key), typ: types.Typ[types.String]}
+					}
+				}
+				env.fail("jsonkey: no field %s", e.Args[0].Name)
 			case "waitsOn":
 				// only at a select anchor: the select has a receive case on this channel
 				x := env.eval(e.Args[0])
